@@ -65,10 +65,14 @@ func vScheduleThreaded(s *taskctl.Scheduler, g interface{}) error {
 }
 
 func vAfterThreaded(d time.Duration) <-chan time.Time {
-	// poll interval: continue once something changed (idle-iteration elision)
-	verifSleep()
+	// the poll interval elapses at some later point: a helper fires once something has changed
+	// since it was armed (idle-iteration elision); if nothing ever changes it never fires and
+	// the select is left to its other cases
 	ch := make(chan time.Time, 1)
-	ch <- time.Now()
+	verifGo(func() {
+		verifSleep()
+		ch <- time.Time{}
+	})
 	return ch
 }
 
@@ -171,6 +175,7 @@ func VerifC11Shutdown() {
 	for _, cg := range w.cancelGos {
 		if !cg.done {
 			cg.done = true
+			verifEvent("  thread: cancel goroutine")
 			verifStartSpawned(cg.idx)
 		}
 	}
@@ -183,7 +188,7 @@ func VerifC11Shutdown() {
 		}
 	}
 	for _, vt := range w.timers {
-		if !vt.fired && !vt.stopped {
+		if verifBound("timerthreads", 0) == 1 && !vt.fired && !vt.stopped {
 			t := vt
 			verifGo(func() {
 				verifYield()
